@@ -217,15 +217,24 @@ impl<'a> GenRec<'a> {
     }
     /// hash_buf / hash_stream over the bytes fed to g since new/reset (the generator itself
     /// is not touched; the spec takes the payload from its own state of g).
+    #[cfg(not(feature = "easy-functions"))]
+    pub fn hash_buf(&mut self, _g: usize) {}
+    #[cfg(not(all(feature = "easy-functions", feature = "std")))]
+    pub fn hash_stream(&mut self, _g: usize, _rng: &mut Rng, _maxread: usize) {}
+    #[cfg(not(all(feature = "easy-functions", feature = "std")))]
+    pub fn hash_stream_seeded(&mut self, _g: usize, _rs: u64, _maxread: usize) {}
+    #[cfg(feature = "easy-functions")]
     pub fn hash_buf(&mut self, g: usize) {
         let data = self.fed[g].clone();
         let r = catch_unwind(|| ssdeep::hash_buf(&data));
         self.sh.emit_w(&format!("{{\"ev\":\"hashbuf\",\"g\":{},\"r\":{}}}", g, res_json(r)), 4);
     }
+    #[cfg(all(feature = "easy-functions", feature = "std"))]
     pub fn hash_stream(&mut self, g: usize, rng: &mut Rng, maxread: usize) {
         let rs = rng.next() >> 34;
         self.hash_stream_seeded(g, rs, maxread)
     }
+    #[cfg(all(feature = "easy-functions", feature = "std"))]
     pub fn hash_stream_seeded(&mut self, g: usize, rs: u64, maxread: usize) {
         struct Chunky<'b> {
             data: &'b [u8],
@@ -859,6 +868,9 @@ pub fn replay(inp: &str, out_dir: &str) {
 }
 
 // ------------------------------------------------------------------ C18: stream / file hashing
+#[cfg(all(feature = "easy-functions", feature = "std"))]
+mod streams {
+use super::*;
 #[derive(Clone, Debug)]
 pub enum El {
     D(usize),
@@ -914,7 +926,7 @@ impl<'b> std::io::Read for Scripted<'b> {
         }
     }
 }
-fn io_result_json(r: std::thread::Result<Result<ssdeep::RawFuzzyHash, ssdeep::GeneratorOrIOError>>) -> String {
+pub(super) fn io_result_json(r: std::thread::Result<Result<ssdeep::RawFuzzyHash, ssdeep::GeneratorOrIOError>>) -> String {
     match r {
         Err(_) => "{\"e\":\"panic\",\"kind\":\"\",\"id\":-1}".to_string(),
         Ok(Err(ssdeep::GeneratorOrIOError::GeneratorError(e))) => format!("{{\"e\":\"{}\",\"kind\":\"\",\"id\":-1}}", gerr(e)),
@@ -1098,3 +1110,9 @@ pub fn drive_streams(a: &Args, w: &Words, thorough: bool) {
     println!("STATS {{\"stream\":{{{},\"scripts\":{},\"fault_scripts\":{},\"skipped\":[{}]}}}}", st, nscripts, nfaults, sk.join(","));
     sh.finish();
 }
+
+}
+#[cfg(all(feature = "easy-functions", feature = "std"))]
+pub use streams::drive_streams;
+#[cfg(not(all(feature = "easy-functions", feature = "std")))]
+pub fn drive_streams(_a: &Args, _w: &Words, _thorough: bool) {}
